@@ -271,26 +271,25 @@ theorem sameURI_ok (target uri : Bytes) (hstar : target ≠ b!"*") (hu : request
     simp only [hq, hqe, beq_self_eq_true, Bool.true_and, hun, hsome, Bool.and_self]
     rfl
 
-theorem captured_suffix (port : Bytes) :
-    (if (capturedPort port).isEmpty then [] else b!":" ++ capturedPort port) =
-    (if port.isEmpty || port == b!"443" then [] else b!":" ++ port) := by
-  unfold capturedPort
-  rw [tables_ports.2.1]
-  by_cases h : (port == b!"443") = true
+theorem captured_suffix (P : Ports) (port : Bytes) :
+    (if (capturedPortP P port).isEmpty then [] else b!":" ++ capturedPortP P port) =
+    (if port.isEmpty || port == P.https then [] else b!":" ++ port) := by
+  unfold capturedPortP
+  by_cases h : (port == P.https) = true
   · simp [h]
   · simp only [h, Bool.false_eq_true, if_false, Bool.or_false]
 
 /-- THE REDIRECT ANSWER: for every captured port, every Host header in scope and every request target net/http can parse
 (origin-form or "*"), the handler answers 301 with Location = https://<same host>[:port]<same path and query>. -/
-theorem redirect_verdict_ok (port hdr target uri : Bytes) (hu : requestURI target = .ok uri) :
-    redirectVerdict port hdr target redirStatus (redirLocation (capturedPort port) hdr uri) = "ok" := by
+theorem redirect_verdict_ok (P : Ports) (port hdr target uri : Bytes) (hu : requestURI target = .ok uri) :
+    redirectVerdict P port hdr target redirStatus (redirLocation (capturedPortP P port) hdr uri) = "ok" := by
   unfold redirectVerdict
   by_cases hsc : hostHeaderInScope hdr = true
   · simp only [hsc, Bool.not_true, Bool.false_eq_true, if_false, redirStatus, bne_self_eq_false]
     unfold redirLocation
     rw [redirHostPort_eq _ _ hsc, captured_suffix]
-    generalize hA : (b!"https://" ++ (hostOnly hdr ++ if (port.isEmpty || port == b!"443") = true then [] else b!":" ++ port)) = A
-    have hA' : b!"https://" ++ hostOnly hdr ++ (if (port.isEmpty || port == b!"443") = true then [] else b!":" ++ port) = A := by
+    generalize hA : (b!"https://" ++ (hostOnly hdr ++ if (port.isEmpty || port == P.https) = true then [] else b!":" ++ port)) = A
+    have hA' : b!"https://" ++ hostOnly hdr ++ (if (port.isEmpty || port == P.https) = true then [] else b!":" ++ port) = A := by
       rw [← hA]; simp
     rw [hA', hexEsc_append]
     have hpre : hasPrefix (hexEscapeNonASCII A ++ hexEscapeNonASCII uri) (hexEscapeNonASCII A) = true := by
